@@ -362,6 +362,26 @@ theorem roundtrip (n : Nat) (hn : 0 < n) (rows : List Row) (hrect : ∀ r ∈ ro
     obtain ⟨c, hc, rfl⟩ := hf
     exact cellText_free c (hok r' hr' c hc)
 
+/-- the characters of Python's `str(float)` for a finite value (digits, sign, point, exponent mark) -/
+def floatChar (b : Nat) : Bool := isDigit b || b == 45 || b == 43 || b == 46 || b == 101
+
+/-- **float_partial.** What is proved about a float cell. Its text — produced by Python's `str(float)`, an external
+function, and consisting of `floatChar`s only — contains neither TAB nor newline, so the cell is a legal text cell
+of `roundtrip`/`dump_canonical`: it is written verbatim into its own field, and the reference reader hands exactly
+that text back for that cell (second conjunct; for whole tables: `roundtrip`). NOT proved here, only corresponded
+(byte-exact against Python `repr` on the way out, value within 1e-12 on the way back): that `str(float)` picks a
+decimal text whose value is the float (Python's repr guarantee) and that `str_to_float` of such a text is the
+float to printing precision (the conversion itself is C18's). -/
+theorem float_partial (t : Bytes) (h : t.all floatChar = true) :
+    cellOK (Cell.text t) ∧ readCell (Cell.text t) (cellText (Cell.text t)) = some (Cell.text t) := by
+  refine ⟨?_, rfl⟩
+  have hb : ∀ b ∈ t, b ≠ 9 ∧ b ≠ 10 := by
+    intro b hb
+    have := (List.all_eq_true.mp h) b hb
+    simp only [floatChar, isDigit, Bool.or_eq_true, Bool.and_eq_true, decide_eq_true_eq, beq_iff_eq] at this
+    omega
+  exact ⟨fun h9 => (hb 9 h9).1 rfl, fun h10 => (hb 10 h10).2 rfl⟩
+
 /-- VCF: POS is written +1 and the reader's shift (tabulated from the code, Gen/C02) takes it back -/
 theorem vcf_pos_roundtrip (c0 : Cell) (p : Int) (rest : Row) :
     shiftPos 1 (c0 :: Cell.int p :: rest) = c0 :: Cell.int (p + 1) :: rest ∧ (p + 1) + Gen.C02.vcfPosShift = p := by
@@ -393,23 +413,30 @@ theorem writeAll_noheader (hdr : Bytes) (dump : List Row → Bytes) (hadd : Addi
 /-- **writes_compose.** For every list of tables written by successive `write` calls of one writer opened for
 writing — any split of the rows, empty tables included — the file is the header exactly once (written by the
 first call) followed by ONE dump of the concatenated table. -/
-theorem writes_compose (hdr : Bytes) (dump : List Row → Bytes) (hadd : Additive dump) (ts : List (List Row)) :
-    writeAll hdr dump false (initState .write) ts = (if ts = [] then [] else hdr) ++ dump ts.flatten := by
+theorem writes_compose (hdr : Bytes) (dump : List Row → Bytes) (hadd : Additive dump) (e : Bool) (ts : List (List Row)) :
+    writeAll hdr dump false (initState .write e) ts = (if ts = [] then [] else hdr) ++ dump ts.flatten := by
   cases ts with
   | nil => simp [writeAll, hadd.1]
   | cons t rest =>
     have hrest := writeAll_noheader hdr dump hadd false ⟨true⟩ (Or.inr rfl) rest
-    simp only [writeAll, writeStep, initState]
+    have hi : initState Mode.write e = ⟨false⟩ := by simp [initState]
+    simp only [writeAll, writeStep, hi]
     by_cases ht : t = []
     · subst ht
       simp [hrest]
     · simp [ht, hrest, hadd.2]
 
-/-- an appending writer never writes a header, whatever the target (plain or gzip) -/
-theorem writes_compose_append (hdr : Bytes) (dump : List Row → Bytes) (hadd : Additive dump) (pa : Bool)
+/-- a writer that owes the header (a 'w' writer, or an appending writer on a new/empty target) -/
+theorem writes_compose_owing (hdr : Bytes) (dump : List Row → Bytes) (hadd : Additive dump) (ts : List (List Row)) :
+    writeAll hdr dump false ⟨false⟩ ts = (if ts = [] then [] else hdr) ++ dump ts.flatten := by
+  have := writes_compose hdr dump hadd true ts
+  simpa [initState] using this
+
+/-- an appending writer on a non-empty target never writes a header -/
+theorem writes_compose_append (hdr : Bytes) (dump : List Row → Bytes) (hadd : Additive dump)
     (ts : List (List Row)) :
-    writeAll hdr dump pa (initState .append) ts = dump ts.flatten :=
-  writeAll_noheader hdr dump hadd pa _ (Or.inr rfl) ts
+    writeAll hdr dump false (initState .append false) ts = dump ts.flatten :=
+  writeAll_noheader hdr dump hadd false _ (Or.inr (by simp [initState])) ts
 
 theorem flatten_filter_ne_nil {α} (ts : List (List α)) : (ts.filter (· ≠ [])).flatten = ts.flatten := by
   induction ts with
@@ -424,7 +451,7 @@ theorem flatten_filter_ne_nil {α} (ts : List (List α)) : (ts.filter (· ≠ []
 
 /-- a stream of chunks: empty chunks are skipped, the header is written iff some chunk is non-empty -/
 theorem writes_compose_stream (hdr : Bytes) (dump : List Row → Bytes) (hadd : Additive dump) (ts : List (List Row)) :
-    writeStream hdr dump false (initState .write) ts
+    writeStream hdr dump false (initState .write true) ts
       = (if ts.filter (· ≠ []) = [] then [] else hdr) ++ dump ts.flatten := by
   unfold writeStream
   rw [writes_compose hdr dump hadd, flatten_filter_ne_nil]
@@ -435,28 +462,86 @@ theorem map_dump_flatten (dump : List Row → Bytes) (hadd : Additive dump) (ts 
   | nil => simp [hadd.1]
   | cons t rest ih => simp [ih, hadd.2]
 
-/-- a session: some pieces through a 'w' writer, then each further piece through its own appending writer
-(plain or gzip): header once in front, one dump of everything -/
-theorem session_compose (hdr : Bytes) (dump : List Row → Bytes) (hadd : Additive dump) (gz : Bool)
-    (pieces : List (List Row)) (first : Nat) :
-    session hdr dump gz pieces first
-      = (if pieces.take first = [] then [] else hdr) ++ dump pieces.flatten := by
-  unfold session
-  rw [writes_compose hdr dump hadd]
-  have h2 : ((pieces.drop first).map (fun t => writeAll hdr dump (!gz) (initState .append) [t])).flatten
-      = dump (pieces.drop first).flatten := by
-    rw [← map_dump_flatten dump hadd]
-    congr 1
-    apply List.map_congr_left
-    intro t _
-    rw [writes_compose_append hdr dump hadd]
-    simp
-  rw [h2, List.append_assoc, ← hadd.2, ← List.flatten_append, List.take_append_drop]
+/-- what one session writes, in terms of the `write` calls it really makes -/
+theorem session_body (hdr : Bytes) (dump : List Row → Bytes) (st : WState) (s : Sess) :
+    (if s.stream then writeStream hdr dump false st s.pieces else writeAll hdr dump false st s.pieces)
+      = writeAll hdr dump false st s.calls := by
+  unfold Sess.calls writeStream
+  split <;> rfl
 
-/-- the rule shipped before the repair: every appending writer on a gzip target wrote the header again -/
+/-- the invariant of a run of appending writers: content = header (iff some call was made) ++ dump of all calls -/
+theorem runAll_append_inv (hdr : Bytes) (dump : List Row → Bytes) (hadd : Additive dump) (ss : List Sess)
+    (hall : ∀ s ∈ ss, s.mode = Mode.append) (done : List (List Row)) (acc : Bytes)
+    (hacc : acc = (if done = [] then [] else hdr) ++ dump done.flatten) :
+    runAll hdr dump acc ss
+      = (if done ++ ss.flatMap Sess.calls = [] then [] else hdr) ++ dump (done ++ ss.flatMap Sess.calls).flatten := by
+  induction ss generalizing done acc with
+  | nil => simp [runAll, hacc]
+  | cons s rest ih =>
+    have hm : s.mode = Mode.append := hall s (by simp)
+    have hstep : runSess hdr dump acc s
+        = (if done ++ s.calls = [] then [] else hdr) ++ dump (done ++ s.calls).flatten := by
+      unfold runSess
+      simp only [hm, show (Mode.append = Mode.write) = False from by simp, if_false]
+      rw [session_body]
+      by_cases hempty : acc = []
+      · have hst : initState Mode.append (acc == []) = ⟨false⟩ := by simp [initState, hempty]
+        rw [hst, writes_compose_owing hdr dump hadd, hempty]
+        rw [hempty] at hacc
+        by_cases hd : done = []
+        · subst hd; simp
+        · simp only [hd, if_false] at hacc
+          have hh : hdr = [] := (List.append_eq_nil_iff.mp hacc.symm).1
+          have hdd : dump done.flatten = [] := (List.append_eq_nil_iff.mp hacc.symm).2
+          simp [hh, List.flatten_append, hadd.2, hdd]
+      · have hst : initState Mode.append (acc == []) = ⟨true⟩ := by simp [initState, hempty]
+        rw [hst, writeAll_noheader hdr dump hadd false ⟨true⟩ (Or.inr rfl)]
+        have hd : done ≠ [] := by
+          intro hd; subst hd; simp [hadd.1] at hacc; exact hempty hacc
+        rw [hacc]
+        simp [hd, List.flatten_append, hadd.2]
+    simp only [runAll, List.flatMap_cons]
+    rw [ih (fun s' hs' => hall s' (by simp [hs'])) (done ++ s.calls) _ hstep]
+    simp [List.append_assoc]
+
+/-- **sessions_compose.** Any sequence of writers on one target — the first opened for writing or appending (to a
+new or empty file), all later ones appending; plain or gzip; each fed by successive `write` calls or by one stream
+of chunks; any split of the rows, empty pieces included — leaves: the header exactly once in front (iff at least
+one `write` call was made at all), followed by ONE dump of the concatenated table. -/
+theorem sessions_compose (hdr : Bytes) (dump : List Row → Bytes) (hadd : Additive dump) (ss : List Sess)
+    (htail : ∀ s ∈ ss.tail, s.mode = Mode.append) :
+    runAll hdr dump [] ss
+      = (if ss.flatMap Sess.calls = [] then [] else hdr) ++ dump (ss.flatMap Sess.calls).flatten := by
+  cases ss with
+  | nil => simp [runAll, hadd.1]
+  | cons s0 rest =>
+    by_cases hm : s0.mode = Mode.write
+    · have h0 : runSess hdr dump [] s0 = (if s0.calls = [] then [] else hdr) ++ dump s0.calls.flatten := by
+        unfold runSess
+        simp only [hm, if_true, List.nil_append]
+        rw [session_body, writes_compose hdr dump hadd]
+      simp only [runAll]
+      rw [runAll_append_inv hdr dump hadd rest (by simpa using htail) s0.calls _ h0]
+      simp
+    · have hall : ∀ s ∈ s0 :: rest, s.mode = Mode.append := by
+        intro s hs
+        simp only [List.mem_cons] at hs
+        rcases hs with rfl | hs
+        · cases hmm : s.mode with
+          | write => exact absurd hmm hm
+          | append => rfl
+        · exact htail s (by simpa using hs)
+      have := runAll_append_inv hdr dump hadd (s0 :: rest) hall [] [] (by simp [hadd.1])
+      simpa using this
+
+/-- the shipped rule: appending to a gzip target wrote the header again; appending to a new plain file wrote none -/
 theorem sessionOld_unsound :
-    sessionOld [35, 10] (fun t => List.replicate t.length 120) true [[[]], [[]]] 1 = [35, 10, 120, 35, 10, 120] ∧
-    session [35, 10] (fun t => List.replicate t.length 120) true [[[]], [[]]] 1 = [35, 10, 120, 120] := by decide
+    runAllOld [35, 10] (fun t => List.replicate t.length 120) true []
+        [⟨Mode.write, false, [[[]]]⟩, ⟨Mode.append, false, [[[]]]⟩] = [35, 10, 120, 35, 10, 120] ∧
+    runAllOld [35, 10] (fun t => List.replicate t.length 120) false [] [⟨Mode.append, false, [[[]]]⟩] = [120] ∧
+    runAll [35, 10] (fun t => List.replicate t.length 120) []
+        [⟨Mode.write, false, [[[]]]⟩, ⟨Mode.append, false, [[[]]]⟩] = [35, 10, 120, 120] ∧
+    runAll [35, 10] (fun t => List.replicate t.length 120) [] [⟨Mode.append, false, [[[]]]⟩] = [35, 10, 120] := by decide
 
 theorem dumpDelimited_additive (n : Nat) (hn : 0 < n) :
     ∀ a b : List Row, (∀ r ∈ a ++ b, r.length = n) →
@@ -736,5 +821,8 @@ example : readTable [[Cell.text [99], Cell.int (-5)], [Cell.text [100, 101], Cel
     = some [[Cell.text [99], Cell.int (-5)], [Cell.text [100, 101], Cell.int 300]] := by decide +kernel
 example : dumpDelimited 2 [[Cell.text [99], Cell.int (-5)]] = [99, 9, 45, 53, 10] := by decide +kernel
 example : lineLens 80 161 = [80, 80, 1] := by decide +kernel
+
+-- float_partial: "-2.5e-05"
+example : [45, 50, 46, 53, 101, 45, 48, 53].all floatChar = true := by decide
 
 end C03
